@@ -40,4 +40,11 @@ m = {
     "not_applicable": na,
 }
 json.dump(m, open(os.path.join(HERE, "MANIFEST.json"), "w"), indent=1)
+# known findings: one committed file assembled from known_findings.d/*.json (development time only)
+import glob
+ents = []
+for f in sorted(glob.glob(os.path.join(HERE, "known_findings.d", "*.json"))):
+    ents += json.load(open(f))
+json.dump({"comment": "status known: printed as KNOWN-FINDING while the pinned input still fails; status fixed: suppresses nothing (see DESIGN.md 2.6)",
+           "findings": ents}, open(os.path.join(HERE, "known_findings.json"), "w"), indent=1)
 print("wrote MANIFEST.json: %d checks, %d not_applicable" % (len(checks), len(na)))
